@@ -2379,6 +2379,9 @@ func ruleNoGlobalSessionData(r *Run) {
 			n++
 			site := shortPkg(pk.Types.Path()) + "." + name
 			c := carrier(gv.Type())
+			if _, isW := written[gv]; c != "" && !isW && r.constantFlatValue(gv) {
+				c = "" // a plain value (numbers only) that nothing writes after its declaration: a constant in all but name
+			}
 			r.Check("J5", site+":type", c == "", gv.Pos(), "package-level variable %s can hold session data (%s reachable from its type %s): state shared by every session of the process", site, c, gv.Type())
 			wpos, w := written[gv]
 			if pk.Types.Name() == "main" {
@@ -2523,4 +2526,67 @@ func (r *Run) mutatesThroughMethod(fn *Func, fv *types.Var) bool {
 		return true
 	})
 	return found
+}
+
+// constantFlatValue: the package-level variable is a struct value made of numbers, booleans and strings only
+// (no pointer, map, slice, channel, function or interface anywhere inside), and no method with a pointer receiver
+// that writes its receiver is ever called on it. With no assignment and no address taken (checked by the caller)
+// it keeps the value of its declaration for ever.
+func (r *Run) constantFlatValue(gv *types.Var) bool {
+	var flat func(t types.Type, depth int) bool
+	flat = func(t types.Type, depth int) bool {
+		if depth > 6 {
+			return false
+		}
+		switch u := t.Underlying().(type) {
+		case *types.Basic:
+			return u.Kind() != types.UnsafePointer
+		case *types.Struct:
+			for i := 0; i < u.NumFields(); i++ {
+				if !flat(u.Field(i).Type(), depth+1) {
+					return false
+				}
+			}
+			return true
+		case *types.Array:
+			return flat(u.Elem(), depth+1)
+		}
+		return false
+	}
+	if _, isStruct := gv.Type().Underlying().(*types.Struct); !isStruct || !flat(gv.Type(), 0) {
+		return false
+	}
+	ok := true
+	for _, fn := range r.P.All {
+		if fn.Body == nil || !ok {
+			continue
+		}
+		info := fn.Info()
+		ast.Inspect(fn.Body, func(nd ast.Node) bool {
+			call, isCall := nd.(*ast.CallExpr)
+			if !isCall {
+				return ok
+			}
+			se, isSel := ast.Unparen(call.Fun).(*ast.SelectorExpr)
+			if !isSel {
+				return ok
+			}
+			id, isID := ast.Unparen(se.X).(*ast.Ident)
+			if !isID || info.Uses[id] != types.Object(gv) {
+				return ok
+			}
+			m, _ := calleeObj(info, call).(*types.Func)
+			if m == nil {
+				ok = false
+				return false
+			}
+			if _, ptr := m.Type().(*types.Signature).Recv().Type().(*types.Pointer); ptr {
+				if md := r.P.Funcs[m]; md == nil || assignsOwnFields(md) {
+					ok = false
+				}
+			}
+			return ok
+		})
+	}
+	return ok
 }
